@@ -125,15 +125,18 @@ def install(sim_time=True, gran="opcode"):
     trace.set_granularity(gran)
     prims._COUNTER[0] = 0
     _patch(queue, "threading", prims.THREADING)
+    # the C-implemented SimpleQueue blocks on a real lock; the standard library's own pure-Python fallback is built
+    # on threading.Semaphore and works under the simulator
+    _patch(queue, "SimpleQueue", queue._PySimpleQueue)
     _patch(rfg, "threading", prims.THREADING)
     _patch(spo, "threading", prims.THREADING)
     _patch(_plan, "RLock", prims.RLock)
-    _patch_discovered_seams()
     if sim_time:
         _patch(spo, "time", prims.TIME)
         _patch(cpo, "dt", prims.DT)
         _patch(hpo, "dt", prims.DT)
         _patch(ipo, "dt", prims.DT)
+    _patch_discovered_seams(sim_time)
 
 
 class _OsWithCpuCount:
@@ -155,19 +158,26 @@ def patch_cpu_count(n):
         _patch(rfg, "os", _OsWithCpuCount(rfg.os, n))
 
 
+import queue as _queue_mod  # noqa: E402
+
+_ORIG_SIMPLE_QUEUE = _queue_mod.SimpleQueue
 _DISCOVERED = None   # [(owner, attr, kind)] found by the first scan of this process (modules do not change afterwards)
 
 
-def _patch_discovered_seams():
+def _patch_discovered_seams(sim_time=True):
     """Any other uberjob module that (in the tree under test) refers to the `threading` module, imports names from
     it, or holds lock objects created at import time (module globals, class attributes) gets the simulated
     counterparts too - a real lock inside the simulation would block the one running thread for good."""
     global _DISCOVERED
+    import queue as real_queue
     import threading as real
+    import time as real_time
 
     if _DISCOVERED is None:
         lock_types = (type(real.Lock()), type(real.RLock()))
-        names = ("Lock", "RLock", "Condition", "Event", "Thread")
+        names = ("Lock", "RLock", "Condition", "Event", "Thread", "Semaphore", "BoundedSemaphore", "Barrier", "Timer")
+        time_names = ("time", "monotonic", "perf_counter", "sleep")
+        c_simple_queue = _ORIG_SIMPLE_QUEUE
         done = {(id(m), a) for m, a, _ in _INSTALLED}
         found = []
         for name, mod in sorted(sys.modules.items()):
@@ -179,18 +189,37 @@ def _patch_discovered_seams():
                     continue
                 if val is real:
                     found.append((mod, attr, "module"))
+                elif val is real_time:
+                    found.append((mod, attr, "time-module"))     # every clock the code under test reads is virtual
+                elif callable(val) and any(val is getattr(real_time, n) for n in time_names):
+                    found.append((mod, attr, "time:" + [n for n in time_names if val is getattr(real_time, n)][0]))
+                elif val is c_simple_queue:
+                    found.append((mod, attr, "simple-queue"))
                 elif attr in names and val is getattr(real, attr):
                     found.append((mod, attr, "name"))
                 elif isinstance(val, lock_types):
                     found.append((mod, attr, "rlock" if isinstance(val, lock_types[1]) else "lock"))
                 elif isinstance(val, type) and getattr(val, "__module__", None) == name:
+                    if any(b is real.Thread or b is real.Timer for b in val.__bases__):
+                        found.append((val, "__bases__", "thread-bases"))   # class Worker(threading.Thread)
                     for cattr, cval in sorted(vars(val).items()):
                         if isinstance(cval, lock_types):
                             found.append((val, cattr, "rlock" if isinstance(cval, lock_types[1]) else "lock"))
         _DISCOVERED = found
     for owner, attr, kind in _DISCOVERED:
+        if kind.startswith("time") and not sim_time:
+            continue
         if kind == "module":
             _patch(owner, attr, prims.THREADING)
+        elif kind == "time-module":
+            _patch(owner, attr, prims.TIME)
+        elif kind.startswith("time:"):
+            _patch(owner, attr, getattr(prims.TIME, kind[5:]))
+        elif kind == "simple-queue":
+            _patch(owner, attr, real_queue._PySimpleQueue)
+        elif kind == "thread-bases":
+            _patch(owner, attr, tuple(prims.Thread if b is real.Thread else prims.Timer if b is real.Timer else b
+                                      for b in owner.__bases__))
         elif kind == "name":
             _patch(owner, attr, getattr(prims, attr))
         else:
